@@ -20,9 +20,10 @@ THEOREMS = ["C18_refines", "C18_balanced", "C18_once", "C18_identity", "C18_dele
             "C18_deep", "C18_local", "C18_quiet_unchanged", "C18_quiet_chain",
             "C18_member_delete", "C18_member_skip", "C18_member_replace",
             "C18_no_crash", "C18_edit_total", "C18_transforms_total", "C18_crash_conditions_needed",
+            "C18_cross_conservative", "C18_cross_type",
             "C18_oracle_reflects", "C18_oracle_sound"]
 AXIOMS_OK = []
-RUN_MODULE = "Run.C18run Lang.VisitorModel"
+RUN_MODULE = "Run.C18run Lang.VisitorModel Lang.VisitorCross"
 AGREE = "agree_C18"
 CASE_TYPE = "case_C18"
 SHARD = 30
@@ -132,6 +133,60 @@ def make_replacement(node, salt):
     return r
 
 
+# replacements of ANOTHER class, within the classes the parent's slot admits (seeded C18-f)
+XFAM = [
+    ["IntValue", "FloatValue", "StringValue", "BooleanValue", "NullValue", "EnumValue", "ListValue",
+     "ObjectValue", "Variable"],
+    ["NamedType", "ListType", "NonNullType"],
+    ["Field", "FragmentSpread", "InlineFragment"],
+]
+XSRC = {"IntValue": "42", "FloatValue": "4.5", "StringValue": '"s"', "BooleanValue": "true", "NullValue": "null",
+        "EnumValue": "E", "ListValue": "[1, $w, [2]]", "ObjectValue": "{k: 7, j: $w, l: [3]}", "Variable": "$x",
+        "NamedType": "T", "ListType": "[T]", "NonNullType": "T!",
+        "Field": "fx(a: 1) @dx { gx }", "FragmentSpread": "...Fx @dx(a: 2)",
+        "InlineFragment": "... on T @dx { gx hx }"}
+# the body of the original class's method reads an attribute the replacement does not have
+XCRASH = {("Field", "FragmentSpread"), ("Field", "InlineFragment"), ("InlineFragment", "FragmentSpread")}
+
+
+def xfamily(k):
+    for fam in XFAM:
+        if k in fam:
+            return fam
+    return None
+
+
+def xoptions(k):
+    """the other classes of the slot family that the code handles without raising"""
+    return [c for c in (xfamily(k) or []) if c != k and (k, c) not in XCRASH]
+
+
+def make_xreplacement(salt, cls):
+    """a fresh node of class cls with fresh locations (800000 + 100 * salt + i)"""
+    src = XSRC[cls]
+    if cls in XFAM[0]:
+        r = parse("{ q(a: %s) }" % src, **G.PARSE_KW).definitions[0].selection_set.selections[0].arguments[0].value
+    elif cls in XFAM[1]:
+        r = parse("query ($a: %s) { q }" % src, **G.PARSE_KW).definitions[0].variable_definitions[0].type
+    else:
+        r = parse("{ %s }" % src, **G.PARSE_KW).definitions[0].selection_set.selections[0]
+    assert type(r).__name__ == cls, (cls, r)
+    for i, n in enumerate(walk(r)):
+        n.loc = (800000 + 100 * salt + i, 800001 + 100 * salt + i)
+    return r
+
+
+def _replacement_for(idx, chain, k, key, loc, act, salt):
+    if act.startswith("xreplace:"):
+        return make_xreplacement(salt, act.split(":", 1)[1])
+    target = idx.get(key)
+    if target is None:
+        # rule keyed on a fresh loc introduced by an earlier visitor's replacement
+        base = idx.get((k, tuple(chain["fresh"][str(loc[0])])))
+        target = make_replacement(base, loc[0] - 700000)
+    return make_replacement(target, salt)
+
+
 # ------------------------------------------------------------------ recording visitors
 def _loc_of(self, node):
     """the node's location; in the location-erased stream the location the node
@@ -189,13 +244,8 @@ def build_chain(doc, chain, log):
         rules = {}
         for k, loc, act, salt in spec["rules"]:
             key = (k, tuple(loc) if loc else None)
-            if act == "replace":
-                target = idx.get(key)
-                if target is None:
-                    # rule keyed on a fresh loc introduced by an earlier visitor's replacement
-                    base = idx.get((k, tuple(chain["fresh"][str(loc[0])])))
-                    target = make_replacement(base, loc[0] - 700000)
-                rules.setdefault(key, ("replace", make_replacement(target, salt)))
+            if act == "replace" or act.startswith("xreplace:"):
+                rules.setdefault(key, ("replace", _replacement_for(idx, chain, k, key, loc, act, salt)))
             else:
                 rules.setdefault(key, (act,))
         vs.append((RecD if spec["disp"] else Rec)(i, rules, log))
@@ -247,12 +297,8 @@ def coq_chain(doc, chain):
         rs = []
         for k, loc, act, salt in spec["rules"]:
             key = (k, tuple(loc) if loc else None)
-            if act == "replace":
-                target = idx.get(key)
-                if target is None:
-                    base = idx.get((k, tuple(chain["fresh"][str(loc[0])])))
-                    target = make_replacement(base, loc[0] - 700000)
-                a = "(Replace %s)" % cnode(make_replacement(target, salt))
+            if act == "replace" or act.startswith("xreplace:"):
+                a = "(Replace %s)" % cnode(_replacement_for(idx, chain, k, key, loc, act, salt))
             else:
                 a = {"delete": "Delete", "skip": "Skip"}[act]
             rs.append("(K%s, %s, %s)" % (k, ser.cloc(key[1]), a))
@@ -347,6 +393,30 @@ def corpus():
     ch["fresh"][str(700003)] = fields[0][1]
     ch["visitors"][0]["rules"].append([fields[0][0], [700003, 700004], "replace", 4])
     out.append(visit_case(t, ch))
+    # seeded C18-f: enter returning a node of ANOTHER class (admissible in the slot): enter is called once,
+    # on the original; the body of the original's method runs on the replacement; leave sees the replacement.
+    # witness: ChainedVisitor(InlineVariables({"v": "42"}), Recorder()) over { f(a: $v, b: [1, $v]) { g } }
+    t = "{ f(a: $v, b: [1, $v]) { g } }"
+    vars_ = [p for p in positions(t) if p[0] == "Variable"]
+    for n, who in ((1, 0), (2, 0), (2, 1), (3, 1)):
+        ch = keep_chain(n=n)
+        for j, p in enumerate(vars_):
+            ch["visitors"][who]["rules"].append([p[0], p[1], "xreplace:IntValue", 3 + j])
+        out.append(visit_case(t, ch))
+        out.append(visit_case(t, ch, noloc=True))
+    t = ("query Q($a: T = 1, $b: [T]!, $c: T!) { f(a: $v, l: [1, $v, \"s\"], o: {k: $v, j: 2.5, e: E, n: null, b: true}) "
+         "@d(x: [1]) { g ...F ... on T { h } } ...G @d } type A { f(x: [Int] = [1]): T! }")
+    for k, (cls, loc) in enumerate(positions(t)):
+        fam = xfamily(cls)
+        if not fam:
+            continue
+        for new in fam:
+            if new == cls:
+                continue
+            for n, disp in ((1, False), (2, True)):
+                ch = keep_chain(n=n, disp=disp)
+                ch["visitors"][0]["rules"].append([cls, loc, "xreplace:" + new, 10 + k])
+                out.append(visit_case(t, ch))
     # every gap witness (known findings)
     for t in GAP_WITNESSES.values():
         out.append(visit_case(t, keep_chain()))
@@ -383,7 +453,11 @@ def _random_rules(rng, ps, n, salt0, allow_delete_any=False):
         if (k, tuple(loc) if loc else None) in seen:
             continue
         seen.add((k, tuple(loc) if loc else None))
-        rules.append([k, loc, rng.choice(["delete", "replace", "skip"]), salt0 + j])
+        if xoptions(k) and rng.random() < 0.3:
+            act = "xreplace:" + rng.choice(xoptions(k))
+        else:
+            act = rng.choice(["delete", "replace", "skip"])
+        rules.append([k, loc, act, salt0 + j])
     return rules
 
 
@@ -415,7 +489,8 @@ def generate(rng, tier):
             chosen = ps if exhaustive else [rng.choice(ps) for _ in range(6)]
         salt = 0
         for k, loc in chosen:
-            for act in ("delete", "replace", "skip"):
+            xs = ["xreplace:" + rng.choice(xoptions(k))] if xoptions(k) else []
+            for act in ["delete", "replace", "skip"] + xs:
                 salt += 1
                 ch = keep_chain(disp=rng.random() < 0.3)
                 ch["visitors"][0]["rules"].append([k, loc, act, salt])
@@ -686,6 +761,11 @@ def _bracket_children(events):
 def direct_checks(case, obs):
     if case["kind"] != "visit" or "events" not in obs:
         if "crash" in obs and case["kind"] == "visit":
+            for v in case["chain"]["visitors"]:
+                for (k, _loc, act, _s) in v["rules"]:
+                    if act.startswith("xreplace:") and (k, act.split(":", 1)[1]) in XCRASH \
+                            and obs["crash"] == "AttributeError":
+                        return [("visit-raises-AttributeError", "replace-other-class")]
             return [("visit-raises-%s" % obs["crash"], None)]
         return []
     ch = case["chain"]
